@@ -172,9 +172,21 @@ func check(c Case) pbt.Result {
 	}
 	sp := spkit.NewSP(spkit.Config{Trust: "meta1", AllowIDPInit: c.AllowIDP})
 	var o spkit.Outcome
-	if c.Entry == "post" {
+	switch c.Entry {
+	case "post":
 		o = spkit.ParsePOST(sp, doc, []string{"id-req"}, spkit.SPACS)
-	} else {
+	case "artifact":
+		// the same Response inside a fresh, unsigned ArtifactResponse (its own instant is not C02's subject)
+		el, err := forge.BuildResponse(&b.spec)
+		if err != nil {
+			return pbt.Result{Err: "harness: " + err.Error()}
+		}
+		env, err := forge.BuildArtifact(&forge.ArtifactSpec{ID: "id-art", InResponseTo: forge.S("id-artreq"), IssueInstant: forge.T(c.now().Add(time.Hour)), Issuer: forge.S(spkit.IDPEntity), Status: []string{forge.StatusOK}}, el)
+		if err != nil {
+			return pbt.Result{Err: "harness: " + err.Error()}
+		}
+		o = spkit.ParseArtifactXML(sp, forge.Bytes(env), []string{"id-req"}, "id-artreq", spkit.SPACS)
+	default:
 		o = spkit.ParseXML(sp, doc, []string{"id-req"}, spkit.SPACS)
 	}
 
@@ -327,7 +339,7 @@ func genMargin(t *rapid.T, label string) int64 {
 func gen(t *rapid.T) Case {
 	c := Case{
 		Layout: rapid.SampledFrom([]string{"resp", "assert", "both"}).Draw(t, "layout"),
-		Entry:  rapid.SampledFrom([]string{"xml", "post"}).Draw(t, "entry"),
+		Entry:  rapid.SampledFrom([]string{"xml", "post", "artifact"}).Draw(t, "entry"),
 		Lex:    rapid.SampledFrom([]string{"lib", "lib", "zone", "zoneneg", "frac", "zoneless", "subms"}).Draw(t, "lex"),
 	}
 	if c.Lex == "subms" {
@@ -386,7 +398,7 @@ func enumLattice(tier string, emit func(Case)) {
 										if shape == "0conf" && cf != far {
 											continue
 										}
-										c := Case{DelayNs: tol[0], SkewNs: tol[1], NowSec: fix.Epoch.Unix() + int64(ti), NowNsec: 0, Layout: layout, Entry: []string{"xml", "post"}[li], Lex: "lib", Resp: r}
+										c := Case{DelayNs: tol[0], SkewNs: tol[1], NowSec: fix.Epoch.Unix() + int64(ti), NowNsec: 0, Layout: layout, Entry: []string{"xml", "post", "artifact"}[(li+idx/stride)%3], Lex: "lib", Resp: r}
 										c.NoDest = layout == "assert" && (idx/stride)%2 == 1
 										c.AllowIDP = (idx/stride)%3 == 1
 										varied := AssertionTimes{Issue: is, NotBefore: nb, NotAfter: na, Confs: []int64{cf}, Encrypted: enc}
